@@ -51,9 +51,17 @@ package bytesconv
 //@   props C03
 //@   ensures err == nil ==> signedDigits(s) && n == signedVal(s)
 //@   ensures 0 < len(s) < 19 && signedDigits(s) ==> err == nil
-//@   ensures err != nil ==> typeis(err, *NumError)
+//@   ensures err != nil ==> typeis(err, *NumError) && as(err, *NumError) != nil
 //@   loop 1:
 //@     invariant 0 <= idx() <= len(s) && len(s) <= 18 && n == dval(s, idx()) && 0 <= n < pow10(idx())
 //@     invariant forall j int :: 0 <= j < idx() ==> isdig(s[j])
 //@     invariant len(s0) < 19 && len(s0) > 0 && s === s0[sgn(s0):] && len(s) > 0
 //@     decreases len(s) - idx()
+
+// ParseFloat's slow path (decimal.go, atofHex) is outside deductive reach (see
+// the bounded stand-in of C03); only the shape of its error result is assumed.
+//@ func ParseFloat(s []byte, bitSize int) (f float64, err error)
+//@   props C03
+//@   trusted
+//@   opt allocates
+//@   ensures err != nil ==> typeis(err, *NumError) && as(err, *NumError) != nil
